@@ -14,6 +14,11 @@ binding registry immediately" is PROVED over all histories for the member with r
 (`c03_follows_registry`), REFUTED for the code as written by two kernel-checked witnesses (the C10 and C09 registry
 defects lose bindings the SPEC keeps), and its security direction — never accepted without a binding in force — is
 PROVED for every member (`c03_accepted_only_if_registry`).
+Schedules: the sequential theorems are complemented by the event-sourced model `Spine.Gate` (section "all schedules"
+below): a write is the two events gate / apply, and for EVERY interleaving with registry operations and clean-ups a
+write that changed the data was writable and bound at the moment of its gate (`c03_all_schedules_bound_at_gate`), a
+refused or cleaned-up write is never applied by any continuation (`c03_refused_never_applied`,
+`c03_cleaned_never_applied`); `c03_gate_model_agrees` ties that model to this one. Tie: `TestGate`.
 Not modelled (monitored on the real code by `TestDispatch` only): the data values themselves (digest before / after
 through the public API), the data-change *event* (the model's `W` marker is compared with the observed write event),
 write approval callbacks (C12), restricted-exchange payload rules (C02/C04).
